@@ -547,6 +547,65 @@ theorem revertAll_restores : ∀ (idxs : List Nat) (fs : List FState) (i : Nat) 
       have := ih (revert fs j) i f b hmem this hb
       simpa [revertAll] using this
 
+/-- an entry prepared for a flow without backup records that flow's pre-replay state as its backup -/
+def FreshInv (s : St) : Prop := ∀ e ∈ s.queue, e.fresh = true → e.bk = e.pre
+
+theorem FreshInv.presStart {s : St} (hi : FreshInv s) (i : Nat) : FreshInv (startOne s i) := by
+  unfold MitmVerif.C53.startOne
+  split
+  · unfold prepare
+    split
+    · exact hi
+    · rename_i g hg
+      intro e he hf
+      simp only [List.mem_append, List.mem_singleton] at he
+      rcases he with he | rfl
+      · exact hi e he hf
+      · simp only [Option.isNone_iff_eq_none] at hf
+        simp [hf]
+  · exact hi
+
+theorem FreshInv.pres {s s' : St} {o : Op} (hi : FreshInv s) (h : step s o = some s') : FreshInv s' := by
+  cases o with
+  | start idxs =>
+    simp only [MitmVerif.C53.step, Option.some.injEq] at h; subst h
+    exact startReplay_ind FreshInv (fun s i h => h.presStart i) idxs s hi
+  | stop =>
+    simp only [MitmVerif.C53.step] at h
+    split at h
+    · simp at h
+    simp only [Option.some.injEq] at h; subst h
+    intro e he; simp [stopReplay] at he
+  | edit i => simp only [MitmVerif.C53.step, Option.some.injEq] at h; subst h; exact hi
+  | setopt b => simp only [MitmVerif.C53.step, Option.some.injEq] at h; subst h; exact hi
+  | take =>
+    simp only [MitmVerif.C53.step] at h
+    split at h
+    · rename_i e rest hinf hq
+      split at h <;> (simp only [Option.some.injEq] at h; subst h
+                      intro e' he'; exact hi e' (by rw [hq]; exact List.mem_cons_of_mem _ he'))
+    · simp at h
+  | send =>
+    simp only [MitmVerif.C53.step] at h
+    split at h
+    · simp only [Option.some.injEq] at h; subst h; exact hi
+    · simp at h
+  | finish r =>
+    simp only [MitmVerif.C53.step] at h
+    split at h
+    · simp only [Option.some.injEq] at h; subst h; exact hi
+    · simp at h
+  | bsend t =>
+    simp only [MitmVerif.C53.step] at h
+    split at h
+    · simp only [Option.some.injEq] at h; subst h; exact hi
+    · simp at h
+  | bfinish t r =>
+    simp only [MitmVerif.C53.step] at h
+    split at h
+    · simp only [Option.some.injEq] at h; subst h; exact hi
+    · simp at h
+
 /-! ### both modes: the option is read at dispatch time -/
 
 /-- while a replay that was started with the option at 1 is running, nothing else is started -/
@@ -715,12 +774,13 @@ structure Inv (s : St) : Prop where
   repl : ReplInv s
   back : BackInv s
   bk : BkInv s
+  fresh : FreshInv s
   gseq : GSeqInv s
   gclosed : GClosed s
 
 theorem init_inv (attrs : List Attr) (fs : List FState) : Inv (init attrs fs) := by
-  refine ⟨by simp [SeqInv, init, logStatus, statusOf], ⟨?_, ?_, ?_, ?_, ?_⟩, ?_, ?_, ?_, ?_, ?_⟩ <;>
-    simp [init, startTickets, ReplInv, BackInv, BkInv, GSeqInv, GClosed, seqStatus, openTicket, gstartTickets]
+  refine ⟨by simp [SeqInv, init, logStatus, statusOf], ⟨?_, ?_, ?_, ?_, ?_⟩, ?_, ?_, ?_, ?_, ?_, ?_⟩ <;>
+    simp [init, startTickets, ReplInv, BackInv, BkInv, FreshInv, GSeqInv, GClosed, seqStatus, openTicket, gstartTickets]
 
 theorem Inv.presRun : ∀ (os : List Op) (s s' : St), Inv s → MitmVerif.C53.run s os = some s' → Inv s' := by
   intro os
@@ -733,7 +793,7 @@ theorem Inv.presRun : ∀ (os : List Op) (s s' : St), Inv s → MitmVerif.C53.ru
     | none => simp [hs] at h
     | some s1 =>
       simp only [hs] at h
-      exact ih s1 s' ⟨hi.seq.pres hs, hi.ord.pres hs, hi.repl.pres hs, hi.back.pres hs, hi.bk.pres hs, hi.gseq.pres hs,
+      exact ih s1 s' ⟨hi.seq.pres hs, hi.ord.pres hs, hi.repl.pres hs, hi.back.pres hs, hi.bk.pres hs, hi.fresh.pres hs, hi.gseq.pres hs,
         hi.gclosed.pres hs⟩ h
 
 theorem Reach.inv {attrs : List Attr} {fs : List FState} {s : St} (h : Reach attrs fs s) : Inv s := by
